@@ -297,20 +297,21 @@ impl<T> Context<T> for Option<T> { fn with_context<C, F: FnOnce() -> C>(self, _f
 impl<T, E> Context<T> for core::result::Result<T, E> { fn with_context<C, F: FnOnce() -> C>(self, _f: F) -> Result<T> { match self { Ok(v) => Ok(v), Err(_) => Err(Error) } } }
 '''
 
-SESSION_SLAB = r'''/// stands in for slab::Slab (session variant): vacated slots stay vacated; indexing one panics like the real crate
+SESSION_SLAB = r'''/// stands in for slab::Slab (session variant): vacated slots stay vacated; indexing one panics like the real crate.
+/// Vacancy is a parallel flag vector, not an Option around the value: any enum wrapped around the (Arc<str>, Arc<LineMap>)
+/// pair costs CBMC minutes per access (measured).  `remove` returns nothing (the one call site discards the value).
 #[derive(Debug, Clone)]
-pub struct Slab<T> { entries: Vec<Option<T>> }
+pub struct Slab<T> { entries: Vec<T>, vacant: Vec<bool> }
 impl<T> Slab<T> {
-    pub fn new() -> Self { Slab { entries: Vec::new() } }
     pub fn len(&self) -> usize { self.entries.len() }
-    pub fn remove(&mut self, k: usize) -> T { self.entries[k].take().expect("invalid key") }
+    pub fn remove(&mut self, k: usize) { if k >= self.vacant.len() || self.vacant[k] { panic!("invalid key") } self.vacant[k] = true; }
 }
 impl<T> std::ops::Index<usize> for Slab<T> {
     type Output = T;
-    fn index(&self, k: usize) -> &T { match self.entries.get(k) { Some(Some(v)) => v, _ => panic!("invalid key") } }
+    fn index(&self, k: usize) -> &T { if k >= self.vacant.len() || self.vacant[k] { panic!("invalid key") } &self.entries[k] }
 }
 impl<T> std::ops::IndexMut<usize> for Slab<T> {
-    fn index_mut(&mut self, k: usize) -> &mut T { match self.entries.get_mut(k) { Some(Some(v)) => v, _ => panic!("invalid key") } }
+    fn index_mut(&mut self, k: usize) -> &mut T { if k >= self.vacant.len() || self.vacant[k] { panic!("invalid key") } &mut self.entries[k] }
 }
 '''
 
@@ -365,7 +366,7 @@ def extract_session(repo):
     ex2['text'] = text
     ex2['functions'] = ex['functions'] + ['Server::on_did_change (crates/glas/src/server.rs:%d)' % line]
     ex2['dropped'] = dropped + ['module path in `convert::from_range` (%d)' % n]
-    ex2['standins'] = ex['standins'] + ['session variant: slab::Slab -> Vec<Option<T>> with remove / "invalid key" panic; lsp_types::Url and ide::VfsPath -> opaque ids; ide::FileSet -> association list; '
+    ex2['standins'] = ex['standins'] + ['session variant: slab::Slab -> Vec<T> + vacancy flags with remove / "invalid key" panic; lsp_types::Url and ide::VfsPath -> opaque ids; ide::FileSet -> association list; '
                                        'std::sync::RwLock -> RefCell; anyhow -> unit error type (ensure!/with_context keep their control flow); Server reduced to {vfs, opened_files} with apply_vfs_change / spawn_update_diagnostics recorded; DidChangeTextDocumentParams etc. field-identical structs; std::collections::HashMap -> association list']
     return ex2
 
